@@ -46,6 +46,10 @@ Definition add_link (fs : fsT) (d : path) (i : nat) : fsT := mkfs ((d, i) :: f_i
 Definition add_copy (fs : fsT) (d : path) (c : string) : fsT :=
   let j := fresh_ino fs in mkfs ((d, j) :: f_ino fs) ((j, c) :: f_data fs).
 
+(* Path(d).iterdir(): the paths directly inside d *)
+Definition dir_entries (fs : fsT) (d : string) : list path :=
+  filter (fun p => String.eqb (fst p) d) (map fst (f_ino fs)).
+
 (* ---------------------------------------------------------------- copy modes *)
 Record cmode := mkmode { m_leave : bool; m_hard : bool; m_sym : bool; m_copy : bool }.
 Inductive way := Leave | Hard | Sym | Copy.
@@ -217,12 +221,13 @@ Section Pydra.
             end
         end
     end.
+  (* clashes_to_avoid = set(Path(wf_path).iterdir()): what the directory already holds *)
   Definition copyfile_workflow (dest : string) (fields : list value) (fs : fsT) :=
-    copyfile_fields dest fields [] fs.
+    copyfile_fields dest fields (dir_entries fs dest) fs.
 
   (* Job.inputs: for each field whose type can contain a FileSet and whose value is truthy,
      copy_nested_files(value, cache_dir, mode=fld.copy_mode, supported_modes=any,
-     clashes_to_avoid=<one set shared by the fields>) *)
+     clashes_to_avoid=<one set shared by the fields, seeded with the directory's entries>) *)
   Record field := mkfield { fd_typed : bool; fd_mode : cmode; fd_value : value }.
   Fixpoint job_fields (dest : string) (fields : list field) (avoid : list path) (fs : fsT)
     : res (list (value * list log_entry) * fsT * list path) :=
@@ -244,5 +249,6 @@ Section Pydra.
           | Ok (r', fs2, av2) => Ok ((fd_value fd, []) :: r', fs2, av2)
           end
     end.
-  Definition job_inputs (dest : string) (fields : list field) (fs : fsT) := job_fields dest fields [] fs.
+  Definition job_inputs (dest : string) (fields : list field) (fs : fsT) :=
+    job_fields dest fields (dir_entries fs dest) fs.
 End Pydra.
